@@ -125,6 +125,26 @@ def _load_snippets():
 
 _load_snippets()
 
+# Workload elements added while hardening the checks against seeded changes (DESIGN.md 9.5); appended to the
+# rule text so that the evidence says what was run.
+RULE_ADDENDA = {
+    "C02": "; plus, for SumVec, pairs of non-bits (2/5, -1/5) whose range-check terms cancel under equal coefficients, at block- and chunk-period distances; an acceptance that does not reproduce under fresh keys is itself a violation (fields >= 64 bits)",
+    "C03": "; one input / candidate prefix in three is backed by storage that does not start at bit 0, and every other aggregation parameter is used as constructed instead of re-decoded",
+    "C04": "; plus constant (key-independent) replacements of the round-one sketch messages / shares; an acceptance that does not reproduce under fresh keys is itself a violation",
+    "C05": "; wrong-length arguments in twelve shapes (+-1, +-2, emptied, halved, x2, x3, x4, zero-/one-padded, zero-prefixed); SumVec cancel pairs (2/5, -1/5) among the invalid families",
+    "C08": "; plus decoding parameters that do not fit together (aggregation parameter at or beyond the instance's bit length)",
+    "C10": "; zero-padded short inputs at every length below the size for n <= 32 and around n/2 ... n/8 beyond",
+    "C12": "; faults include well-framed messages whose opaque field carries surplus bytes or lost its last byte; half of the spy VDAF's states / shares / messages give no encoded_len hint",
+    "C13": "; Poplar1 trees up to 65536 bits (level 65535) for arbitrary and real shares; inputs with non-zero storage offsets",
+    "C15": "; certain-outcome sub-calls (uniform below 1, Bernoulli(0/1), exp(-0)) are left out of both traces, the sign/magnitude order is probed per scale and the Gaussian proposal scale per sigma (law-preserving freedoms)",
+    "C16": "; verifier shares computed for another number of proofs; Poplar1 reports mixing public / input shares of different bit lengths at every level; aggregator identifiers >= the number of aggregators (incl. values congruent to a valid id mod 2^8/2^16/2^32) must give an error; add_noise_to_agg_share on instances at the domain extremes",
+    "C18": "; plus identifiers congruent to the own id mod 2^8/2^16/2^32 (IdAlias), Prio3 over XofFixedKeyAes128 with 16-byte seeds (generic binding matrix), one configuration in eight with several hundred encoded elements; an acceptance that does not reproduce under fresh keys is itself a violation",
+    "C20": "; prefixes with non-zero storage offsets",
+}
+for _pid, _txt in RULE_ADDENDA.items():
+    if _pid in PROPS and not PROPS[_pid]["rule"].endswith(_txt):
+        PROPS[_pid]["rule"] = PROPS[_pid]["rule"] + _txt
+
 
 def watchdog(pid, tier):
     """Generous wall-clock watchdog per shard (seconds); firing is inconclusive, not a verdict."""
